@@ -397,7 +397,7 @@ func cmdThresholds(args []string) int {
 							exit = 1
 							rec["verdict"] = "differs from every allowed formula"
 							rec["counterexample"] = lastModel
-							rp := filepath.Join(verifDir, "evidence", "replay", fmt.Sprintf("%s-%s-%d.json", spec.Property, site.Name, nViol))
+							rp := filepath.Join(replayDir(), fmt.Sprintf("%s-%s-%d.json", spec.Property, site.Name, nViol))
 							os.MkdirAll(filepath.Dir(rp), 0755)
 							rb, _ := json.MarshalIndent(rec, "", " ")
 							os.WriteFile(rp, rb, 0644)
@@ -456,7 +456,7 @@ func cmdThresholds(args []string) int {
 			exit = 1
 			rec["verdict"] = "counterexample"
 			rec["counterexample"] = strings.TrimSpace(rest)
-			rp := filepath.Join(verifDir, "evidence", "replay", fmt.Sprintf("%s-lemma-%s.json", spec.Property, lm.Name))
+			rp := filepath.Join(replayDir(), fmt.Sprintf("%s-lemma-%s.json", spec.Property, lm.Name))
 			os.MkdirAll(filepath.Dir(rp), 0755)
 			rb, _ := json.MarshalIndent(rec, "", " ")
 			os.WriteFile(rp, rb, 0644)
@@ -516,4 +516,12 @@ func maxInt(a, b int) int {
 		return a
 	}
 	return b
+}
+
+// replayDir is evidence/replay unless GOSYM_REPLAY_DIR redirects it (runs against scratch trees).
+func replayDir() string {
+	if d := os.Getenv("GOSYM_REPLAY_DIR"); d != "" {
+		return d
+	}
+	return filepath.Join(verifDir, "evidence", "replay")
 }
